@@ -357,9 +357,18 @@ def check_catalog_case(cid, modes, acc=None, double=False):
 
 
 def _work_catalog(sh, acc):
-    for cid in sh["ids"]:
+    import time
+
+    t_start = time.monotonic()
+    for k, cid in enumerate(sh["ids"]):
+        if time.monotonic() - t_start > sh.get("budget_s", 1e9):
+            acc.inconclusive += len(sh["ids"]) - k
+            acc.tally("catalog_status", "not_reached_within_budget", len(sh["ids"]) - k)
+            break
+        t0 = time.monotonic()
         for v in check_catalog_case(cid, sh["modes"], acc, double=sh.get("double", False)):
             acc.violation(v["sig"], v["case"], v["detail"])
+        acc.timed(cid + (" [f64]" if sh.get("double") else ""), time.monotonic() - t0)
 
 
 # --------------------------------------------------------------------------- plan / dispatch
@@ -421,9 +430,10 @@ def expand(shards, tier, seed):
         modes = [0, 1, 2]
         nsh = 64
     out = list(shards)
-    cat = [{"kind": "catalog", "ids": ids[i::nsh], "modes": modes} for i in range(nsh)]
+    budget = 150 if tier == "quick" else 1500
+    cat = [{"kind": "catalog", "ids": ids[i::nsh], "modes": modes, "budget_s": budget} for i in range(nsh)]
     if tier == "thorough":
-        cat += [{"kind": "catalog", "ids": ids[i::nsh], "modes": [0, 2], "double": True} for i in range(nsh)]
+        cat += [{"kind": "catalog", "ids": ids[i::nsh], "modes": [0, 2], "double": True, "budget_s": budget} for i in range(nsh)]
     return cat + out
 
 
